@@ -210,7 +210,11 @@ impl<'a> Emitter<'a> {
             sig.ident = Ident::new(r, proc_macro2::Span::call_site());
         }
         let stmts = &body.stmts;
-        let ts = if fs.traitimpl.is_some() { quote!(#sig { __vx_fn!(#id); #(#stmts)* }) } else { quote!(pub #sig { __vx_fn!(#id); #(#stmts)* }) };
+        // quick vacuity twin: the entry probe needs only the precondition; the body is replaced by an arbitrary value
+        let entry_only = self.vacuity && !self.vacuity_all && !fs.attrs.iter().any(|a| a.contains("external_body"));
+        let ts = if entry_only {
+            if fs.traitimpl.is_some() { quote!(#sig { __vx_fn!(#id); vx_arbitrary() }) } else { quote!(pub #sig { __vx_fn!(#id); vx_arbitrary() }) }
+        } else if fs.traitimpl.is_some() { quote!(#sig { __vx_fn!(#id); #(#stmts)* }) } else { quote!(pub #sig { __vx_fn!(#id); #(#stmts)* }) };
         let fo = FnOut {
             id: id.clone(),
             spec: fs.clone(),
